@@ -3,7 +3,7 @@
 export VERIF_WORKERS=${VERIF_WORKERS:-8}
 export VERIF_RUNS_DIV=${VERIF_RUNS_DIV:-4}
 : > /tmp/seedmatrix.jsonl
-for d in /verif/seeded/C*-[12]; do
+for d in /verif/seeded/C*-*; do
   b=$(basename $d); id=${b%-*}; n=${b#*-}
   /venv/bin/python /verif/tools/seedcheck.py run $id $n C01 C02 C03 C04 C05 C06 C07 C08 C10 C11 C12 C13 C14 C15 C16 | /venv/bin/python -c "
 import json,sys; d=json.load(sys.stdin); print(json.dumps({'mutant':'$b','results':{p:{'rc':v['rc'],'first':(v['lines'][0][:200] if v['lines'] else '')} for p,v in d.items()}}))" >> /tmp/seedmatrix.jsonl
